@@ -77,6 +77,8 @@ VOCAB = [
     "~ x \r= 1", "~ y = (\r", "~ z = 1 +\r\r", "~ items \r\r\r= [", "@if a\r:", "{x\r +}",
     # a centre format spec behind an expression that itself holds closed braces; a tag behind it
     "{'{}/{}'.format(1, 2):^9}", "{d.get('k', {}):^6} ^tag", "x {'{}'.format(a):^5} y ^t", "+ [a {'{}'.format(1):^3}] -> A ^c",
+    # lines that only look like imports
+    "from the hills a wind blows", "  import os", "import x // note", "from x import (", "import os, sys", "from . import y", "import 9",
     # defaults that are strings holding commas and name=value look-alikes
     ":: H(text=\"stock=3, price=5\")", ":: H(a, b=\"x, y=1\")", ":: H(t='a, b')", "-> H", "+ [a] -> H(\"x\")", "-> H(1)",
     # attribute named like the token's own field; comments around @metadata; old markers after @join
